@@ -7,7 +7,7 @@ from engine.defuse import defuse_of
 from engine.cells import Explorer, Iv, Const, TOP
 from engine.embedded import struct_sites, fmt_fields, fmt_size, INT_RANGE
 from engine.fold import UNKNOWN
-from .common import calls_named, package_calls, enclosing_trys
+from .common import calls_named, package_calls, enclosing_trys, before
 
 EXPLANATION = (
     "Static writer/reader agreement for the binary serializer. Decides: (R1) the writer table serialize_types and the reader table "
@@ -145,7 +145,7 @@ def r1(ctx):
             # writer: tag, serialize_int(stream, len(X)), stream.write(X)
             si = calls_named(wfi, "serialize_int")
             wr = [c for c in calls_named(wfi, "write") if norm(c.func) == "%s.write" % sp]
-            ok = len(si) == 1 and len(wr) == 2 and norm(si[0].args[1]) == "len(%s)" % norm(wr[1].args[0]) and wr[0].lineno < si[0].lineno < wr[1].lineno
+            ok = len(si) == 1 and len(wr) == 2 and norm(si[0].args[1]) == "len(%s)" % norm(wr[1].args[0]) and before(wfi, wr[0], si[0]) and before(wfi, si[0], wr[1])
             ctx.check(ok, "C13.R1", wfi, "%s: tag, tagged length of the raw bytes, raw bytes (in that order)" % wname, witness=[norm(c) for c in si + wr])
             dv = calls_named(rfi, "deserialize_value")
             rd = [c for c in calls_named(rfi, "read") if norm(c.func) == "%s.read" % rfi.params[0]]
@@ -189,7 +189,7 @@ def r1(ctx):
             if kind == "map":
                 st = [n for n in walk_own(rfi.node) if isinstance(n, ast.Assign) and isinstance(n.targets[0], ast.Subscript)]
                 kd = [n for n in walk_own(rfi.node) if isinstance(n, ast.Assign) and n.value in dv[1:]]
-                ok = len(st) == 1 and len(kd) == 2 and norm(st[0].targets[0].slice) == norm(kd[0].targets[0]) and norm(st[0].value) == norm(kd[1].targets[0]) and kd[0].lineno < kd[1].lineno
+                ok = len(st) == 1 and len(kd) == 2 and norm(st[0].targets[0].slice) == norm(kd[0].targets[0]) and norm(st[0].value) == norm(kd[1].targets[0]) and before(rfi, kd[0], kd[1])
                 ctx.check(ok, "C13.R1", rfi, "map reader: first decoded value is the key, second the value", witness=[norm(s) for s in st])
             rets = [n for n in walk_own(rfi.node) if isinstance(n, ast.Return)]
             ctor = {"map": "{}", "seq": "[]", "set": "set("}[kind]
@@ -360,7 +360,7 @@ def r2(ctx):
             continue
         arg = norm(c.args[1])
         guards = [n for n in walk_own(f.node) if isinstance(n, ast.If) and isinstance(n.test, ast.Compare) and norm(n.test.left) == arg and norm(n.test.comparators[0]) == "MAX_BYTES_LENGTH"
-                  and any(isinstance(s, ast.Raise) for s in n.body) and n.lineno < c.lineno]
+                  and any(isinstance(s, ast.Raise) for s in n.body) and before(f, n, c)]
         ctx.check(len(guards) == 1, "C13.R2", f, "serialize_int(%s) is preceded by the MAX_BYTES_LENGTH guard" % arg, line=c.lineno)
     mx = ctx.folder.module_attr(ctx.repo.mod(M), "MAX_BYTES_LENGTH")
     ctx.check(isinstance(mx, int) and mx <= INT_RANGE["q"][1], "C13.R2", fi, "MAX_BYTES_LENGTH fits a 64-bit length", witness=mx)
@@ -397,7 +397,7 @@ def r3(ctx):
             if fname == w and gs:
                 # the guard precedes the first write
                 wr = [c for c in walk_own(f.node) if isinstance(c, ast.Call) and (norm(c.func).endswith(".write") or norm(c.func) in ("serialize_value", "serialize_int"))]
-                ctx.check(all(c.lineno > gs[0].lineno for c in wr), "C13.R3", f, "%s refuses before writing anything" % fname)
+                ctx.check(all(before(f, gs[0], c) for c in wr), "C13.R3", f, "%s refuses before writing anything" % fname)
     # enum refuses illegal values
     es = ctx.fn("%s:SerializableEnum.serialize" % M)
     gs = [n for n in walk_own(es.node) if isinstance(n, ast.If) and norm(n.test) == "self.value not in self._value2name" and any(isinstance(s, ast.Raise) for s in n.body)]
